@@ -7,7 +7,15 @@ that of the last rule that fires; the list reduced to that rule gives the same v
 a rule that does not fire changes nothing; a deny message is carried into Decision.reason; with
 no firing rule the verdict is the one of the empty configuration; an X=1 prefix or a transparent
 wrapper does not hide the command; a glob-free pattern matches by whole-word prefix (equality
-with the | anchor)."""
+with the | anchor).
+Second round - spelling families (harness/spell.py): a rule whose pattern names files in one spelling
+(., .., ~, ./x, ../x, x/.., ~/x, /abs, //, /./, trailing /, detours, symlinks; built by construction and
+validated with os.path.realpath) must decide the command that names the same files in any other
+spelling - at every position of the pattern, as command rule / alias / redirect rule, allow/ask/deny
+with and without message, anchored / prefix / trailing ' *', behind every assignment and wrapper form,
+alone and after an earlier rule in yet another spelling; a rule for another file is inert.  The
+expectation comes from the file system, not from the matcher under test.  Function level: the loop body
+of _match_words (Rules.pat_matches) on every pattern of <= 3 atoms x every text of <= 4 atoms."""
 from __future__ import annotations
 
 import fnmatch
@@ -16,7 +24,7 @@ import random
 import warnings
 from pathlib import Path
 
-from . import core, lib
+from . import core, lib, spell
 from . import rules_common as rc
 
 TRUSTED = rc.TRUSTED_COMMON + [
@@ -32,7 +40,7 @@ ARGS = ["a", "x", "push", "status", "origin", "-f", "--force", "-v", "src/main.p
         "src/../src/main.py", "@CWD@/src/main.py", "~/n/f", "/etc/passwd", "bin/x.js", "1", "a=b", "zap", "--opt=v", "./a=b.sh", "X+=v"]
 # a form is a list of components: an assignment prefix or one wrapper with its options
 # every bash spelling of an assignment word: NAME=v, NAME=, NAME="a b", NAME+=v, NAME[sub]=v, NAME[sub]+=v, several mixed
-ENVS = {"env": ["X=1"], "env2": ["A=b", "C=d"], "envempty": ["X="], "envquoted": ['X="a b"'], "envplus": ["PATH+=:/opt/bin"],
+ENVS = {"env": ["X=1"], "env2": ["A=b", "C=d"], "envempty": ["X="], "envquoted": ['X="a b"'], "envplus": ["LIBDIRS+=:/opt/bin"],
         "envarr": ["a[0]=v"], "envarrplus": ["a[k]+=v"], "envmixed": ["X=1", "Y+=2", "a[1]=3", "Z="]}
 WRAPS = {"time": ["time"], "timeout": ["timeout", "5"], "nice": ["nice", "-n", "3"], "nohup": ["nohup"], "command": ["command", "--"]}
 ENV_WORDS = {w for v in ENVS.values() for w in v}
@@ -280,10 +288,51 @@ def run(tier, seed, replay=None):
                 out.violations.append({"kind": "matcher", "what": bad, "case": case,
                                        "signature_text": f"matcher {kind} input={case['input']!r} config={case['config']!r}"})
 
+        # ------------------------------------------------ a rule that names files x a command that names the same files
+        def spell_case(case):
+            """case: spell.build's case + 'form'.  Expected without any model and without the matcher under test: the rule's
+            pattern and the command name the same file(s) (generator's construction, validated with os.path.realpath), so
+            analyze() must answer the rule's decision (with its message); different files: the rule is inert."""
+            cfg_text, subject, expected = spell.build(sc, case)
+            want = case["dec"]
+            if case.get("first"):
+                # an earlier rule of the same kind, in another spelling (of the same or of another file): the LAST rule that
+                # names the command's files decides
+                t1, _, e1 = spell.build(sc, dict(case, p=case["first"]["p"], dec=case["first"]["dec"], same=case["first"]["same"], msg=False))
+                cfg_text = t1 + "\n" + cfg_text
+                if not expected and e1:
+                    expected, want = True, case["first"]["dec"]
+            cfg = C.parse_config(cfg_text)
+            form = case["form"]
+            if case["rule"] == "redirect":
+                text = shell_text(WRAPPERS[form] + ["echo", "hi", ">", subject])
+            else:
+                text = shell_text(WRAPPERS[form] + list(subject))
+            dec = analyze(text, cfg)
+            out.count("c07.spell", f"{case['rule']}:{'same' if case['same'] else 'other'}")
+            out.count("c07.spell.form", form)
+            bad = None
+            if expected:
+                if dec.action != want:
+                    bad = f"the {'last ' if case.get('first') else ''}rule that names the same file(s) as the command says {want}, but analyze() says {dec.action}"
+                elif want == "deny" and case.get("msg") and want == case["dec"] and ("M-" + case["dec"]) not in dec.reason:
+                    bad = f"deny message 'M-deny' not in reason {dec.reason!r}"
+            else:
+                v0 = analyze(text, C.Config()).action
+                if v0 != dec.action:
+                    bad = f"the rule names another file, yet the verdict is {dec.action} instead of the built-in {v0}"
+            if bad:
+                out.violations.append({"kind": "spell", "what": f"{spell.unsub(sc, cfg_text)!r} on {spell.unsub(sc, text)!r}: {bad}", "case": case,
+                                       "config": spell.unsub(sc, cfg_text), "command": spell.unsub(sc, text), "verdict": dec.action, "reason": dec.reason,
+                                       "signature_text": f"spell rule={case['rule']} form={form} tpl={case.get('tpl')} p={case['p']!r} q={case['q']!r} dec={case['dec']}"})
+
         # ------------------------------------------------ replay
         if replay:
             case = replay.get("case")
-            if case and "form" in case:
+            if case and "p" in case and "q" in case:
+                spell_case(case)
+                out.case(case)
+            elif case and "form" in case:
                 oracle_case(case)
                 out.case(case)
             elif case and "pattern" in case:
@@ -313,6 +362,42 @@ def run(tier, seed, replay=None):
                 out.count("fnmatch.subject", "has-newline")
             if mv != real:
                 disagree("Fnmatch.fnmatch <-> fnmatch.fnmatchcase", {"pattern": p, "name": s}, mv, real)
+
+        # ------------------------------------------------ A2. the loop body of _match_words / match_after, exhaustively on a small alphabet
+        # pat_matches(np, exact, cmd) on the normalised strings: every pattern of <= 3 atoms x every command text of <= 4 atoms
+        # x anchored or not.  The real side is _match_words in remote mode (no alias, no normalisation: the strings are used as
+        # they are) and match_after's copy of the loop, compared with each other too (C19 shares the loop).
+        import itertools
+        P_ATOMS = ["a", "b", " ", "*", "?", "[a]", "[!a]", " *"]          # every character class the loop distinguishes: literal, blank, each glob char, the ' *' suffix
+        C_ATOMS = ["a", "b", " ", "*"]
+        pats = [""] + ["".join(t) for n in (1, 2, 3) for t in itertools.product(P_ATOMS, repeat=n)]
+        cmds = [""] + ["".join(t) for n in (1, 2, 3, 4) for t in itertools.product(C_ATOMS, repeat=n)]
+        if quick:
+            pats = [x for i, x in enumerate(pats) if len(x) <= 4 or i % 3 == 0]
+        n_pm = 0
+        for pi, pat in enumerate(pats):
+            for exact in (False, True):
+                rule_cfg = C.Config(rules=[C.Rule("deny", pat, exact=exact)])
+                after_cfg = C.Config(after_rules=[C.Rule("after", pat, message="m", exact=exact)])
+                sub_cmds = cmds if not quick else cmds[(pi + exact) % 4::4] + [pat, pat + " a", pat[:-2] if pat.endswith(" *") else pat + "a"]
+                for cmd in sub_cmds:
+                    real = rc.guarded(lambda: C._match_words([cmd], rule_cfg, cwd, remote=True) is not None)
+                    real = {True: "1", False: "0"}.get(real, "error" if real == "exn:error" else real)
+                    mv = mcall(["pat_matches", pat, exact, cmd])
+                    n_pm += 1
+                    if mv != real:
+                        disagree("Rules.pat_matches <-> the loop body of config._match_words (remote mode)", {"pattern": pat, "exact": exact, "command": cmd}, mv, real)
+                    if not any(c in pat + cmd for c in "/~.$"):   # no path-shaped token: match_after must agree with _match_words
+                        ws = cmd.split(" ")
+                        if all(ws):
+                            ra = rc.guarded(lambda: C.match_after(list(ws), after_cfg, cwd) == "m")
+                            rw = rc.guarded(lambda: C._match_words(list(ws), rule_cfg, cwd) is not None)
+                            if ra != rw:
+                                out.violations.append({"kind": "after-loop", "what": f"pattern {pat!r} exact={exact} on {ws!r}: _match_words fires={rw}, match_after fires={ra}",
+                                                       "case": {"after_pattern": pat, "exact": exact, "words": ws},
+                                                       "signature_text": f"after-loop pattern={pat!r} exact={exact} words={ws!r}"})
+        out.count("pat_matches.exhaustive", "cases", n_pm) if False else out.extra.__setitem__("pat_matches_cases", n_pm)
+        out.case(["pm-exhaustive", len(pats), len(cmds)], nontrivial=True)
 
         # ------------------------------------------------ B. rule lists: model <-> config.py
         pool = [gen_words(rng) for _ in range(40)]
@@ -413,6 +498,76 @@ def run(tier, seed, replay=None):
             literal_case(case)
             out.case(case)
 
+        # ------------------------------------------------ D. spelling families x rule kind x position x prefix form (analyze level)
+        links = spell.scratch_links(sc)
+        forms = list(WRAPPERS)
+        n_spell = 0
+        U = lambda x: spell.unsub(sc, x)
+        files = spell.scratch_files(sc)
+        fams = {n: [x for x in spell.family(pth, sc.cwd, sc.home, links, 1 if quick else 2) if spell.pathword(x)] for n, pth, _ in files}
+        TPLS = spell.POSITIONS
+
+        def emit(i, rule, tpl, pspell, qspell, same=True):
+            nonlocal n_spell
+            mode = (i // 5) % 4
+            case = {"rule": rule, "dec": rc.VERDICTS[i % 3], "exact": mode == 1, "star": mode == 2, "msg": (i // 3) % 2 == 0,
+                    "tpl": tpl if rule != "alias" else "name", "extra": 1 if mode == 3 else 0,
+                    "p": [U(pspell)], "q": [U(qspell)], "same": same, "tail": None, "form": forms[(i * 3 + i // len(forms)) % len(forms)]}
+            if i % 7 == 3 and rule == "command":
+                case["sep"] = ("  ", "\t", " \t ")[(i // 7) % 3]
+            spell_case(case)
+            out.case(case, nontrivial=True)
+            n_spell += 1
+
+        for fi, (name, pth, _) in enumerate(files):
+            fam = fams[name]
+            other = fams[files[(fi + 1) % len(files)][0]]
+            plain = [x for x in fam if "+" not in x.how]     # ., .., ~, ./x, ../x, x/y, /abs, ~/x, CWD/../x ...: the undecorated forms
+            i = fi * 7
+            # every undecorated form in the pattern x every undecorated form in the command x every position x every decision
+            for pspell in plain:
+                for qspell in plain:
+                    for tpl in TPLS:
+                        for _d in range(3 if tpl in ("arg1", "name", "arg2", "mid") else 1):
+                            emit(i, "command", tpl, pspell, qspell)
+                            i += 1
+            # every member of the family in the pattern: every position, alias, redirect rule; partner, form, decision, anchor rotated
+            for k, pspell in enumerate(fam):
+                for t, tpl in enumerate(TPLS):
+                    emit(i, "command", tpl, pspell, fam[(k * 7 + t * 3 + 1) % len(fam)])
+                    i += 1
+                emit(i, "alias", "name", pspell, fam[(k * 5 + 2) % len(fam)])
+                emit(i + 1, "redirect", None, pspell, fam[(k * 3 + 4) % len(fam)])
+                emit(i + 2, "command", TPLS[k % len(TPLS)], pspell, pspell)        # the pattern is the command's own text
+                i += 3
+            # every member of the family in the command
+            for k, qspell in enumerate(fam):
+                emit(i, "command", TPLS[k % len(TPLS)], fam[(k * 11 + 5) % len(fam)], qspell)
+                emit(i + 1, ("alias", "redirect")[k % 2], "name", fam[(k * 13 + 6) % len(fam)], qspell)
+                i += 2
+                if k % 4 == 0:   # control: the command names another file - the rule must be inert
+                    emit(i, ("command", "alias", "redirect")[k % 3], TPLS[k % len(TPLS)], fam[k], other[k % len(other)], same=False)
+                    i += 1
+            # two rules: the same file twice in different spellings (the later one decides), and a rule for another file
+            # before / after the one that fires (inert)
+            for k, pspell in enumerate(fam):
+                q_ = fam[(k * 7 + 3) % len(fam)]
+                p1 = fam[(k * 5 + 1) % len(fam)]
+                o1 = other[(k * 3) % len(other)]
+                rule = ("command", "redirect", "command")[k % 3]
+                for first, same_main, pmain in (({"p": [U(p1)], "dec": rc.VERDICTS[(k + 1) % 3], "same": True}, True, pspell),
+                                                ({"p": [U(o1)], "dec": rc.VERDICTS[(k + 2) % 3], "same": False}, True, pspell),
+                                                ({"p": [U(pspell)], "dec": rc.VERDICTS[(k + 1) % 3], "same": True}, False, o1)):
+                    mode = (i // 5) % 4
+                    case = {"rule": rule, "dec": rc.VERDICTS[k % 3], "exact": mode == 1, "star": mode == 2, "msg": True, "tpl": TPLS[(k // 3) % len(TPLS)],
+                            "extra": 1 if mode == 3 else 0, "p": [U(pmain)], "q": [U(q_)], "same": same_main, "tail": None,
+                            "form": forms[(i * 3) % len(forms)], "first": first}
+                    spell_case(case)
+                    out.case(case, nontrivial=True)
+                    n_spell += 1
+                    i += 1
+        out.extra["spelling_cases"] = n_spell
+
         n, mism = core.coq_crosscheck("C07", xcheck)
         out.extra["coq_vm_crosscheck"] = {"cases": n, "mismatches": len(mism)}
         if mism:
@@ -423,7 +578,12 @@ def run(tier, seed, replay=None):
             "patterns with messages, redirect/after/mcp/after-mcp/alias lines, x commands from a pool of 15 bases (bare, "
             "relative, ~, absolute) with path arguments, remote on/off, 0-2 redirect targets; C: systematic "
             f"{n_sys} = base x wrapper form (bare, X=1, A=b C=d, time, timeout 5, nice -n 3, nohup, command --, combos) x "
-            "decision x pattern shape, then random rule lists x commands x forms. distinct = distinct canonical inputs; "
+            "decision x pattern shape, then random rule lists x commands x forms; A2: pat_matches exhaustively (pattern atoms a b blank * ? [a] [!a] ' *', "
+            f"<= 3 atoms; text atoms a b blank *, <= 4 atoms; anchored or not: {out.extra.get('pat_matches_cases')} cases); D: {out.extra.get('spelling_cases')} "
+            "spelling cases = 15 files (cwd, parent, grandparent, home, /, directory, file, missing, outside, under home, system, through a link) x "
+            "every spelling of the family in the pattern and in the command (undecorated forms fully crossed) x 8 pattern positions x command "
+            "rule / alias / redirect rule x decision x message x anchor / ' *' / extra word x 35 prefix forms (rotated), two-rule lists, "
+            "other-file controls. distinct = distinct canonical inputs; "
             "non-trivial = a glob metacharacter in the pattern (A), >= 2 rules (B, C)")
         return out
     finally:
